@@ -104,6 +104,9 @@ class DFV:
         self.cols = dict(cols or {})
         self.index_desc = index
 
+    def sym_len(self):
+        return self.nrows
+
     def copy(self):
         out = DFV(self.nrows, self.cols, self.index_desc)
         if getattr(self, "row_perm", None):
